@@ -49,6 +49,24 @@ func genBattle(t *rapid.T, maxW int, bigOffsets bool) battleCase {
 	if rapid.IntRange(0, 7).Draw(t, "longw") == 0 {
 		maxLen = 14
 	}
+	// rare scale classes (fair coin flips, see gen.Rare)
+	if gen.Rare(t, "bigcore", 7) {
+		// cores above 2^16 cells: task addresses and fields need more than 16 bits
+		m = rapid.SampledFrom([]int{65537, 100000, 131072}).Draw(t, "Mbig")
+		c.Cfg.M, c.Cfg.R, c.Cfg.W = m, m, m
+		if c.Cfg.Cycles > 40 {
+			c.Cfg.Cycles = 40
+		}
+	}
+	if maxW >= 3 && gen.Rare(t, "manywarriors", 6) {
+		// melees: more warriors than fit a machine word or a small fixed table
+		n = rapid.SampledFrom([]int{17, 20, 33, 64, 65, 66, 100}).Draw(t, "nmany")
+		maxLen = 2
+		if m < 2*n {
+			m = 2*n + rapid.IntRange(0, 40).Draw(t, "mmany")
+			c.Cfg.M, c.Cfg.R, c.Cfg.W = m, m, m
+		}
+	}
 	if maxLen > m {
 		maxLen = m
 	}
@@ -57,8 +75,19 @@ func genBattle(t *rapid.T, maxW int, bigOffsets bool) battleCase {
 		off := rapid.IntRange(0, m-1).Draw(t, "off")
 		if bigOffsets {
 			off += m * rapid.IntRange(0, 2).Draw(t, "wraps")
+			if gen.Rare(t, "hugeoff", 4) {
+				// offsets at the top of the unsigned 64-bit range, near 2^63 and near 2^32
+				off = rapid.SampledFrom([]int{-1, -2, -3, -7, -m, -m - 1, -1 << 63, 1<<63 - 1, 1 << 32, 1<<32 - 1, 1<<32 + 5}).Draw(t, "hugeoffv")
+			}
 		}
 		c.Offs = append(c.Offs, off)
+	}
+	if m <= 64 && n <= 3 && gen.Rare(t, "longbattle", 9) {
+		// thousands of cycles with a splitter that cannot die and a process limit in the
+		// hundreds or thousands: queues pass 256, 1024, ... entries while their heads move
+		c.Cfg.P = rapid.SampledFrom([]int{257, 300, 1000, 1025, 1500, 3000, 8000}).Draw(t, "Pbig")
+		c.Cfg.Cycles = rapid.IntRange(1500, 4500).Draw(t, "cyclesbig")
+		c.Ws[0] = ref.Warrior{Code: []ref.Instr{{Op: ref.SPL, Mod: ref.MB}, {Op: ref.JMP, Mod: ref.MB, A: m - 1}}, Start: rapid.IntRange(0, 1).Draw(t, "splstart")}
 	}
 	return c
 }
@@ -300,7 +329,7 @@ const c02Rule = "rapid draws 1..4 warriors (length 1..6, any of the 7616 forms, 
 func TestC02(t *testing.T) {
 	hx.Run(t, hx.Prop[battleCase]{
 		ID: "C02", Sub: "battle", Rule: c02Rule, Checks: hx.Scale(30000, 12000000),
-		Gen:   func(rt *rapid.T) battleCase { return genBattle(rt, 4, false) },
+		Gen:   func(rt *rapid.T) battleCase { return genBattle(rt, 4, true) },
 		Judge: judgeBattle,
 	})
 }
